@@ -28,6 +28,7 @@ use slog::Logger;
 /// position in storage; this means that the next write to storage
 /// might need to truncate the log before persisting unstable.entries.
 #[derive(Debug)]
+#[cfg_attr(tikv_raft_rs_verif, derive(Clone))]
 pub struct Unstable {
     /// The incoming unstable snapshot, if any.
     pub snapshot: Option<Snapshot>,
